@@ -37,6 +37,16 @@ worlds per process.
       (1, 2, n-1, n, n+1, >n, library default), patch_num + probe_size (patch centres made by the library), leafsize,
       a second build_trees with force=True/False, count_rr, the worker limit through Configuration.max_workers or
       per operation.  The single-process reference is the SAME call with the SAME optional arguments (world_reference).
+ (ii') NODE LAYOUTS.  The ranks of a world may report different processor names (sched.hosts -> MPI.Get_processor_name per rank):
+      two nodes with equal shares, the root's node ranks not contiguous (the writer is not rank 1), the root alone on its node,
+      three nodes, workers spread unevenly, the worker limit below / equal to / above the number of ranks on the root's node.
+      Such worlds run everything of (ii) and (iii) - every source and option, load, trees, measurements, I/O, refused requests -
+      with the same comparison against the single-process run.  In addition EVERY creation run (one node or several) is checked
+      against Model/MpiWrite.v (`c06_layout_case`): writer and processing ranks observed in the log = the first
+      min(max_workers or size, size) ranks on the root's node, every chunk cut as numpy.array_split over the processing ranks,
+      records turned into patch dictionaries = input records = records of the root's catalog (write conservation;
+      C06_layout_no_loss).  A layout without a second allowed rank on the root's node is not an input the property promises a
+      catalog for: there the creation may be refused, on every rank and the same way (counted), everything else must work.
  (iii) error paths: requests that the single-process run REFUSES by raising (c06_common.REFUSALS:
       probe larger than the random sample, centre without records, no patch method, existing cache
       without overwrite, non-finite values, missing column / file / cache, different patch ids,
@@ -84,11 +94,15 @@ TRUSTED = [
     "worlds with create_mode='num' (patch centres from the library's k-means, which is not seeded): only the union of the stored "
     "records, their number and the total weight are compared with the single-process run; a run in which the k-means leaves a "
     "centre without records (refused on every rank) is counted and not compared",
-    "a real MPI library, real transport, eager limits, non-synchronising collectives, several hosts for the write "
-    "pipeline, pickling of real mpi4py communicators are NOT exercised (not installed)",
+    "a real MPI library, real transport, eager limits, non-synchronising collectives, file systems that are not shared "
+    "between nodes, pickling of real mpi4py communicators are NOT exercised (not installed)",
+    "node layouts: harness/sim/mpi4py answers MPI.Get_processor_name() per rank from the schedule (`hosts`); the writer and the "
+    "processing ranks of a creation run and the records per patch dictionary are read from the simulator log "
+    "(harness/props/c06.py:write_observation: tag-1 messages on COMM_WORLD up to the reader's end-of-queue sentinel, payload "
+    "summary 'dict:{patch:records}')",
 ]
 ASSUMPTIONS = [
-    "ranks are threads of one interpreter and share one file system (one node)",
+    "ranks are threads of one interpreter and share one file system, also when they report different processor names",
     "collectives synchronise (the most blocking behaviour the MPI standard allows)",
     "data weights/redshifts are small dyadic numbers, so float sums are exact and order independent",
     "a refused request is one that the single-process run of the same tree ends by raising; its exception type is the reference "
@@ -96,7 +110,7 @@ ASSUMPTIONS = [
 ]
 RULE = ("dispatch cases = (world size, max_workers, rank0_node_only/hosts, send mode, wildcard policy+seed or explicit "
         "choice sequence, task list, consumer kind, item limit of the consumer); pipeline cases = (world size, max_workers, send mode, "
-        "policy, seed, data spec, optional keyword arguments of the entry points); distinct by that tuple; consumer-stop cases = "
+        "policy, seed, data spec, optional keyword arguments of the entry points, processor name per rank); distinct by that tuple; consumer-stop cases = "
         "dispatch tuple with an item limit <= number of tasks, non-trivial on >= 2 ranks; non-trivial when some wildcard receive had >= 2 candidate senders "
         "(the schedule actually decided something); failing-job cases = dispatch tuple + the task values the job raises for, "
         "non-trivial when that set is not empty; iter_unordered episodes of group C refusal runs = (refusal case, call number), "
@@ -217,6 +231,11 @@ def dispatch_jobs(ctx, size, mode, batch):
             jobs.append(dict(kind="dispatch", tasks=rng.sample(range(900), nt), max_workers=rng.choice([None, size]),
                              node_only=True, consumer=rng.choice(CONSUMERS),
                              sched=dict(mode=mode, policy="random", seed=rng.randrange(10 ** 6), hosts=hosts)))
+    # several processor names WITHOUT rank0_node_only (what every entry point but the creation does): they do not matter
+    if size >= 3:
+        jobs.append(dict(kind="dispatch", tasks=rng.sample(range(900), 5), max_workers=rng.choice([None, 2, size]),
+                         consumer=rng.choice(CONSUMERS),
+                         sched=dict(mode=mode, policy="random", seed=rng.randrange(10 ** 6), hosts=host_names(draw_layout(rng, size)))))
     # every sequence of wildcard choices for small task lists
     if mode != "mixed" and batch == 0:
         for nt in ([2, 3] if ctx.quick() else [1, 2, 3, 4]):
@@ -805,6 +824,51 @@ def draw_opts(rng, spec):
     return o
 
 
+# ------------------------------------------------------------------------------------------
+# (ii') node layouts: the ranks of a world report different processor names
+# ------------------------------------------------------------------------------------------
+def write_plan(size, mw, hosts):
+    """the ranks the write pipeline may use, from the documentation of write_patches ("schedule all work only on the same
+    node that hosts the root") and of max_workers: the first min(max_workers or size, size) ranks that report the root's
+    processor name; None when these are fewer than two (reader and writer are different ranks) - then the layout is not an
+    input the property promises a catalog for"""
+    hosts = hosts or [0] * size
+    eff = min(mw or size, size)
+    same = [r for r in range(size) if hosts[r] == hosts[0]][:eff]
+    return same if eff >= 2 and len(same) >= 2 else None
+
+
+def host_names(hosts):
+    return None if hosts is None else ["node%d" % h for h in hosts]
+
+
+def layout_label(hosts):
+    return "one-node" if not hosts or len(set(hosts)) == 1 else "nodes:" + "".join(str(h) for h in hosts)
+
+
+def draw_layout(rng, size):
+    """processor name (a number; the root's is 0) of every rank of a world that is spread over SEVERAL nodes: how many ranks
+    share the root's node (none: the root is alone; up to all but one), which ones (the next ranks, the last ranks, any -
+    so the writer need not be rank 1 and the node's ranks need not be contiguous), the others on one or two more nodes"""
+    c = rng.choice([1] + list(range(1, size)) + list(range(2, size)))        # ranks on the root's node, root included
+    others = list(range(1, size))
+    how = rng.choice(["next", "last", "any", "any"])
+    mates = others[:c - 1] if how == "next" else (others[len(others) - (c - 1):] if how == "last" else rng.sample(others, c - 1))
+    nn = rng.choice([1, 1, 2])
+    return [0 if (r == 0 or r in mates) else 1 + rng.randrange(nn) for r in range(size)]
+
+
+def draw_limit(rng, size, hosts):
+    """a worker limit relative to the number c of ranks on the root's node: none, below, equal, above, the world size"""
+    c = sum(1 for h in hosts if h == hosts[0])
+    return rng.choice([None, None, size] + [m for m in (c - 1, c, c + 1, 2, 1) if 1 <= m <= size])
+
+
+def creation_refused(w):
+    """creation requests in this world (issued with at least two allowed workers) find no second rank on the root's node"""
+    return write_plan(w["size"], 2 if w["mw"] == 1 else w["mw"], w.get("hosts")) is None
+
+
 def pipeline_worlds(ctx):
     rng = ctx.rng
     worlds = [
@@ -826,6 +890,19 @@ def pipeline_worlds(ctx):
              opts=dict(progress=ALL_PROGRESS, force=True, cs=1, leafsize=1, count_rr=False)),
         dict(size=4, mw=1, mode="eager", policy="random", seed=5, spec="F", tag="progress-root-fallback", create=False,
              opts=dict(progress=ALL_PROGRESS, mw_config=True)),
+        # node layouts (deterministic; `hosts` = processor name per rank): two nodes with two ranks each (the root is the only
+        # processing rank although four workers are allowed); three ranks on the root's node that are not contiguous (the
+        # writer is rank 2); a worker limit below / equal to / above the number of ranks on the root's node; three nodes; the
+        # root alone on its node (creation is refused on every rank, everything else must work); sources other than a frame
+        dict(size=4, mw=None, mode="sync", policy="low", seed=0, spec="A", tag="nodes-2+2", hosts=[0, 0, 1, 1], nref=1),
+        dict(size=4, mw=None, mode="eager", policy="random", seed=11, spec="B", tag="nodes-3+1-writer-not-rank-1", hosts=[0, 1, 0, 0], nref=1),
+        dict(size=4, mw=2, mode="mixed", policy="high", seed=12, spec="G", tag="nodes-limit-below-node-ranks", hosts=[0, 1, 0, 0], nref=1),
+        dict(size=5, mw=3, mode="eager", policy="fifo", seed=13, spec="E", tag="nodes-limit-equals-node-ranks", hosts=[0, 1, 0, 2, 0], nref=1),
+        dict(size=5, mw=4, mode="sync", policy="random", seed=14, spec="H", tag="nodes-limit-above-node-ranks", hosts=[0, 0, 1, 1, 2], nref=1,
+             opts=dict(source="parquet", progress=["create"])),
+        dict(size=3, mw=None, mode="eager", policy="low", seed=0, spec="D", tag="nodes-root-alone", hosts=[0, 1, 1], nref=1),
+        dict(size=3, mw=None, mode="eager", policy="lifo", seed=15, spec="F", tag="nodes-2+1-random-source", hosts=[0, 0, 1], nref=1,
+             opts=dict(source="random", cs=7)),
     ]
     n = ctx.n(30, 350) - len(worlds)
     names = sorted(SPECS)
@@ -838,8 +915,12 @@ def pipeline_worlds(ctx):
     for i in range(n):
         size = rng.choice([2, 3, 3, 4, 4, 5])
         mw = rng.choice([None, None, 2, 3, size, 1])
+        hosts = None
+        if rng.random() < 0.35:         # several nodes; the worker limit relative to the ranks on the root's node
+            hosts = draw_layout(rng, size)
+            mw = draw_limit(rng, size, hosts)
         nm, opts = scenarios[i % len(scenarios)] if i < len(scenarios) else rng.choice(scenarios)
-        worlds.append(dict(size=size, mw=mw, spec=nm, create=(mw != 1), opts=json.loads(json.dumps(opts)),
+        worlds.append(dict(size=size, mw=mw, hosts=hosts, spec=nm, create=(mw != 1), opts=json.loads(json.dumps(opts)),
                            mode=rng.choice(["eager", "sync", "sync", "mixed"]),
                            policy=rng.choice(["random", "random", "random", "low", "high", "fifo", "lifo"]),
                            seed=rng.randrange(10 ** 6), tag="random"))
@@ -861,13 +942,17 @@ def pipeline_worlds(ctx):
     for w in worlds:
         if "refusals" in w:
             continue
-        pool = list(CLASSES_AM)
+        # a world whose root has no second rank on its node refuses EVERY creation (before it looks at the request): requests
+        # and follow-up operations that create a catalog say nothing there
+        noc = creation_refused(w)
+        pool = [c for c in CLASSES_AM if not (noc and cc.REFUSALS[c][2])]
         rng.shuffle(pool)
-        w["refusals"] = [refusal_item(rng, c, SPECS[w["spec"]], w["mw"]) for c in pool[:per_world]]
+        w["refusals"] = [refusal_item(rng, c, SPECS[w["spec"]], w["mw"], noc) for c in pool[:w.get("nref", per_world)]]
         # the job raises on a worker rank (group C, repaired by 32238ed): one class per world, replayed through the model
-        w["refusals"].append(refusal_item(rng, rng.choice(CLASSES_C), SPECS[w["spec"]], w["mw"]))
+        w["refusals"].append(refusal_item(rng, rng.choice(CLASSES_C), SPECS[w["spec"]], w["mw"], noc))
         if not ctx.quick():
-            w["refusals"].append(refusal_item(rng, rng.choice(CLASSES_BC), SPECS[w["spec"]], w["mw"]))
+            w["refusals"].append(refusal_item(rng, rng.choice([c for c in CLASSES_BC if not (noc and cc.REFUSALS[c][2])]),
+                                              SPECS[w["spec"]], w["mw"], noc))
     for i, w in enumerate(worlds):
         w["id"] = "p%03d" % i
         w.setdefault("opts", {})
@@ -934,7 +1019,7 @@ NEEDS_EXTRA = {"cross-patch-ids-differ": ["ids"], "auto-patch-ids-differ": ["ids
                "cross-no-redshifts": ["noz"], "hist-no-redshifts": ["noz"]}
 
 
-def refusal_item(rng, cls, spec, mw):
+def refusal_item(rng, cls, spec, mw, no_create=False):
     """parameters of one request of refusal class `cls` and the valid operation that follows it"""
     par = {}
     if cls == "random-probe-exceeds-records":
@@ -963,7 +1048,7 @@ def refusal_item(rng, cls, spec, mw):
         par = dict(idx=rng.randrange(spec["n"]), value=rng.choice([40000, 32768, -1]))
     if cls not in cc.NO_PROGRESS_KW and rng.random() < 0.4:
         par = dict(par, progress=True)      # the refused request goes through the progress bar
-    follow = rng.choice([f for f in cc.FOLLOW_UPS if not (f == "create" and mw == 1)])
+    follow = rng.choice([f for f in cc.FOLLOW_UPS if not (f == "create" and (mw == 1 or no_create))])
     return dict(cls=cls, par=par, follow=follow)
 
 
@@ -1014,7 +1099,7 @@ def refusal_job(w, d, caches, ref, item, jid, seed):
     return dict(kind="refusal", id=jid, cls=cls, par=item["par"], follow=item["follow"], spec=SPECS[w["spec"]],
                 trace=cc.REFUSALS[cls][0] == "C", opts=w.get("opts") or {},
                 env=env, max_workers=mw,
-                sched=dict(mode=w["mode"], policy=w["policy"], seed=seed),
+                sched=dict(mode=w["mode"], policy=w["policy"], seed=seed, hosts=host_names(w.get("hosts"))),
                 ref_first=item.get("ref_first") or refusal_reference(ref, w["spec"], cls, item["par"]))
 
 
@@ -1031,14 +1116,16 @@ def handle_refusal(ctx, st, w, ref, j, res):
     sched = run.get("sched") or {}
     replay = dict(entry="refusal", refusal_class=cls, request=request, parameters=par, follow_up=follow, world_size=size,
                   max_workers=j["max_workers"], mode=w["mode"], policy=w["policy"], seed=sched.get("seed"),
-                  follow_up_options=w.get("opts") or {},
+                  processor_name_per_rank=w.get("hosts"), follow_up_options=w.get("opts") or {},
                   data_spec=dict(SPECS[w["spec"]], name=w["spec"]), single_process_outcome=want_first,
                   how="harness/props/c06_driver.py job kind 'refusal': cc.stage_refusal on every rank = the request, "
                       "COMM.Barrier(), then the follow-up operation on the regular data catalog")
     refused = want_first[0] == "raised"
     ctx.count(key=("refusal", cls, json.dumps(par, sort_keys=True), follow, size, j["max_workers"], w["mode"], w["policy"],
-                   sched.get("seed"), w["spec"]),
+                   sched.get("seed"), w["spec"], tuple(w.get("hosts") or ())),
               nontrivial=(refused or group == "M") and size >= 2, kind="refusal/%s/%s" % (group, cls))
+    if layout_label(w.get("hosts")) != "one-node":
+        ctx.bump("refusal_runs_on_several_nodes")
     ctx.bump("refusal_single_process:" + (want_first[1] if refused else "returns"))
     first = run.get("first", {})
     prob = rank_problems(run)
@@ -1110,7 +1197,7 @@ def pipeline_job(ctx, w, ref):
     d = os.path.join(ctx.workdir, "world_%s" % w["id"])
     os.makedirs(d, exist_ok=True)
     spec = SPECS[w["spec"]]
-    sched = dict(mode=w["mode"], policy=w["policy"], seed=w["seed"])
+    sched = dict(mode=w["mode"], policy=w["policy"], seed=w["seed"], hosts=host_names(w.get("hosts")))
     caches = {}
     for k in cc.CATS:
         caches[k] = os.path.join(d, "cache_" + k)
@@ -1139,7 +1226,9 @@ OPS_WHAT = {
 def handle_pipeline(ctx, w, ref, out, st, jobs):
     spec = SPECS[w["spec"]]
     opts = w.get("opts") or {}
+    hosts = w.get("hosts")
     base = dict(world_size=w["size"], max_workers=w["mw"], mode=w["mode"], policy=w["policy"], seed=w["seed"],
+                processor_name_per_rank=hosts,
                 data_spec=dict(spec, name=w["spec"]), optional_keyword_arguments=opts, ops=w.get("ops"), create=w.get("create", True))
     okey = json.dumps(opts, sort_keys=True)
     wref = w.get("_ref") or world_reference(ctx, ref, w["spec"], opts)
@@ -1158,8 +1247,10 @@ def handle_pipeline(ctx, w, ref, out, st, jobs):
         replay = dict(base, stage=stage, schedule=run.get("sched"),
                       how="harness/props/c06_driver.py with this job: size, spec, max_workers, sched, opts "
                           "(c06_common.stage_create / stage_rest on every rank)")
-        ctx.count(key=("pipeline", stage, w["size"], w["mw"], w["mode"], w["policy"], w["seed"], w["spec"], okey),
-                  nontrivial=nontrivial_run(run), kind="%s/size%d/mw%s/%s" % (stage, w["size"], w["mw"], w["mode"]))
+        ctx.count(key=("pipeline", stage, w["size"], w["mw"], w["mode"], w["policy"], w["seed"], w["spec"], okey, tuple(hosts or ())),
+                  nontrivial=nontrivial_run(run), kind="%s/size%d/mw%s/%s%s" % (stage, w["size"], w["mw"], w["mode"],
+                                                                                "" if layout_label(hosts) == "one-node" else "/several-nodes"))
+        ctx.bump("layout/%s:%s" % (stage, layout_label(hosts)))
         for name in sorted(opts):
             if name == "progress":
                 for op in opts[name]:
@@ -1167,6 +1258,15 @@ def handle_pipeline(ctx, w, ref, out, st, jobs):
                         ctx.bump("option:progress=True/" + op)
             elif (name in ("cs", "create_mode", "probe")) == (stage == "create"):
                 ctx.bump("option:%s=%s" % (name, json.dumps(opts[name], sort_keys=True)))
+        if stage == "create" and write_plan(w["size"], w["mw"], hosts) is None:
+            # the root has no second (allowed) rank on its node: reader and writer cannot be two ranks of that node.  Not an
+            # input the property promises a catalog for - the request may be refused, but on EVERY rank and the same way
+            raised = sorted({v.get("type") for v in run["ranks"].values() if v["status"] == "exc"})
+            if run["outcome"] == "ok" and all(v["status"] == "exc" for v in run["ranks"].values()) and len(raised) == 1:
+                ctx.bump("create_refused_on_every_rank(no second rank on the root's node):" + raised[0])
+                layout_term(ctx, st, w, idx, replay, None, True, 0, 0)
+                ctx.sample(dict(kind="create-refused-by-layout", replay=base, every_rank_raised=raised[0]), limit=2)
+                continue
         prob = rank_problems(run)
         if prob:
             # the operation the slowest rank was in when the world stopped (stage_rest marks every operation per rank)
@@ -1194,7 +1294,9 @@ def handle_pipeline(ctx, w, ref, out, st, jobs):
                 continue
             diff = cc.first_diff(want, val)
             ctx.bump("create_num_union_equal" if not diff else "create_num_union_differs")
+            layout_term(ctx, st, w, idx, replay, run, False, want["union"]["num_records"], val["union"]["num_records"])
             if diff:
+                st["create_failed"].add(idx)
                 ctx.fail("c06-create-root-result-differs",
                          "Catalog.from_dataframe(patch_num=%d, probe_size=%s): the records stored in the root's catalog differ from the "
                          "single-process run at %s (unreceived messages: %s)" % (spec["ncent"], opts.get("probe"), diff, run["leftover"][:4]),
@@ -1203,14 +1305,19 @@ def handle_pipeline(ctx, w, ref, out, st, jobs):
         if stage == "create":
             want = wref["create"]
             diff = cc.first_diff(want, val)
-            senders = sorted({e[1] for e in run.get("log", []) if e[2] in ("send", "ssend") and e[3] == 1 and e[4] == 1 and e[5] == 0})
+            obs = write_observation(run)
+            writer = 1 if obs is None else obs["writer"]      # (one node: the lowest rank after the reader)
+            ctx.bump("create_writer_rank:%d" % writer)
+            senders = sorted({e[1] for e in run.get("log", []) if e[2] in ("send", "ssend") and e[3] == writer and e[4] == 1 and e[5] == 0})
             ctx.bump("create_senders:%d" % len(senders))
+            layout_term(ctx, st, w, idx, replay, run, False, sum(len(v["rows"]) for v in want.values()),
+                        sum(len(v.get("rows", [])) for v in (val or {}).values()), obs)
             if run["leftover"]:
                 ctx.bump("create_runs_with_unreceived_messages")
             # C06_write_stopped_rest on the implementation: per patch, stored + unreceived = input
             rest = {}
             for m in run["leftover"]:
-                if m[1] == 1 and m[2] == 1 and m[3] == 0 and m[4].startswith("dict:{"):
+                if m[1] == writer and m[2] == 1 and m[3] == 0 and m[4].startswith("dict:{"):
                     for item in m[4][6:-1].split(", "):
                         if ":" in item:
                             k, v = item.split(":")
@@ -1221,7 +1328,8 @@ def handle_pipeline(ctx, w, ref, out, st, jobs):
             if not cons and not diff:
                 ctx.disagree("write-conservation(stored+unreceived=input)", idx, dict(replay=replay, unreceived=run["leftover"][:6]))
             if diff:
-                if cons and is_f13b(run):
+                st["create_failed"].add(idx)
+                if cons and is_f13b(run, writer):
                     lost = sum(len(v["rows"]) for v in want.values()) - sum(len(v["rows"]) for v in val.values())
                     ctx.fail(F13B, "Catalog.from_dataframe on %d ranks (max_workers=%s, eager sends): the writer's wildcard receive "
                                    "matched the reader's end-of-queue sentinel while %d patch dictionaries of other ranks were still "
@@ -1255,29 +1363,116 @@ def handle_pipeline(ctx, w, ref, out, st, jobs):
                              dict(replay, op=op, first_difference=diff), case=idx)
 
 
-def is_f13b(run):
-    """structural test: all ranks returned; up to the moment the writer (rank 1) received the
+def dict_records(summ):
+    """number of records in a patch dictionary from its log summary 'dict:{patch id:records, ...}' (None: cut off)"""
+    if not summ.startswith("dict:{") or summ.endswith("...}"):
+        return None
+    return sum(int(item.split(":")[1]) for item in summ[6:-1].split(", ") if ":" in item)
+
+
+def write_observation(run):
+    """who took part in the write pipeline of one creation run, from the communication log up to the reader's end-of-queue
+    sentinel (what follows belongs to load_patches): the writer = the rank the patch dictionaries (tag 1, COMM_WORLD) go to,
+    the processing ranks = the ranks that send them, and per processing rank the records of each of its dictionaries (one
+    per chunk, in order).  None when the log does not show a complete pipeline run"""
+    writer, sizes, closed = None, {}, False
+    for e in run.get("log", []):
+        rank, op, peer, tag, cid, summ = e[1:7]
+        if op not in ("send", "ssend") or tag != 1 or cid != 0:
+            continue
+        if summ == EOQ and rank == 0:
+            writer, closed = (peer if writer is None else writer), True
+            break
+        if summ.startswith("dict:"):
+            k = dict_records(summ)
+            if k is None or (writer is not None and peer != writer):
+                return None
+            writer = peer
+            sizes.setdefault(rank, []).append(k)
+    if not closed or not sizes:
+        return None
+    return dict(writer=writer, procs=sorted(sizes), sizes=sizes)
+
+
+def layout_term(ctx, st, w, idx, replay, run, refused, n_input, n_stored, obs=None):
+    """one creation run against Model/MpiWrite.v (node layouts): who takes part, how every chunk is cut, records handed out = input
+    records = stored records"""
+    hosts = w.get("hosts") or [0] * w["size"]
+    if refused:
+        obs = dict(writer=0, procs=[], sizes={})
+    else:
+        obs = obs or write_observation(run)
+        if obs is None:
+            ctx.bump("layout_runs_without_complete_pipeline_log(not replayed)")
+            return
+    procs = obs["procs"]
+    nchunks = max([len(v) for v in obs["sizes"].values()] or [0])
+    if any(len(v) != nchunks for v in obs["sizes"].values()):
+        ctx.bump("layout_runs_with_unequal_dictionary_counts")
+    pieces = [[(obs["sizes"][r][i] if i < len(obs["sizes"][r]) else 0) for r in procs] for i in range(nchunks)]
+    members = sorted(procs + ([] if refused else [obs["writer"]]))
+    st["lterms"].append("c06_layout_case %s %s %s %s %s %s %s %s %s" % (
+        fq.nlist(hosts), oopt(w["mw"]), fq.b(refused), fq.nat(obs["writer"]), fq.nlist(members), fq.nlist(procs),
+        fq.lst([fq.nlist(p) for p in pieces]), fq.nat(n_input), fq.nat(n_stored)))
+    st["lmeta"].append(dict(idx=idx, replay=dict(replay, writer_rank=obs["writer"], processing_ranks=procs,
+                                                 records_per_chunk_and_processing_rank=pieces[:12]),
+                            refused=refused, writer=obs["writer"], procs=procs, pieces=pieces, n_input=n_input, n_stored=n_stored,
+                            hosts=hosts, mw=w["mw"], size=w["size"]))
+    if not refused:
+        ctx.bump("layout_processing_ranks:%d/allowed_workers:%d" % (len(procs), min(w["mw"] or w["size"], w["size"])))
+        if layout_label(w.get("hosts")) != "one-node":
+            ctx.sample(dict(kind="create-on-several-nodes", replay=replay, writer_rank=obs["writer"], processing_ranks=procs,
+                            records_per_chunk_and_processing_rank=pieces[:6], input_records=n_input, stored_records=n_stored), limit=4)
+
+
+def finish_layouts(ctx, st):
+    codes = ctx.shards("Cases_C06L", HEADER_R, st["lterms"], shard=200)
+    for m, c in zip(st["lmeta"], codes):
+        if c is None or c == 0:
+            continue
+        handed = sum(sum(p) for p in m["pieces"])
+        where = "%d ranks with processor names %s, max_workers=%s: writer rank %d, processing ranks %s" % (
+            m["size"], m["hosts"], m["mw"], m["writer"], m["procs"])
+        if c & 2:
+            ctx.fail("c06-create-layout-records-lost-at-scatter",
+                     "catalog creation on %s: the processing ranks turned %d records into patch dictionaries, the input has %d "
+                     "(per chunk and processing rank: %s); all ranks returned" % (where, handed, m["n_input"], m["pieces"][:8]),
+                     m["replay"], case=m["idx"])
+        if c & 4 and not (c & 2) and m["idx"] not in st["create_failed"]:
+            ctx.fail("c06-create-layout-stored-records-differ",
+                     "catalog creation on %s: the root's catalog holds %d records, the single-process catalog %d (handed to the "
+                     "processing ranks: %d); all ranks returned" % (where, m["n_stored"], m["n_input"], handed), m["replay"], case=m["idx"])
+        if c & 1:
+            ctx.disagree("Cases_C06L(node layout: participants / cut of a chunk)", m["idx"],
+                         dict(code=c, replay=m["replay"], refused=m["refused"],
+                              model="writer and processing ranks = the first min(max_workers or size, size) ranks with the root's "
+                                    "processor name; every chunk cut as numpy.array_split over the processing ranks"))
+
+
+def is_f13b(run, wr=1):
+    """structural test: all ranks returned; up to the moment the writer (rank wr) received the
     end-of-queue sentinel, the sentinel was the reader's LAST message to the writer (so the
     reader's own dictionaries were delivered, FIFO), and what is left unreceived are only
     dictionaries that OTHER ranks had sent eagerly to the writer before that moment"""
     left = run["leftover"]
     log = run.get("log", [])
-    if not left or any(not (m[1] == 1 and m[2] == 1 and m[3] == 0 and m[0] != 0 and m[4].startswith("dict:")) for m in left):
+    if not left or any(not (m[1] == wr and m[2] == 1 and m[3] == 0 and m[0] != 0 and m[4].startswith("dict:")) for m in left):
         return False
-    stop = [e[0] for e in log if e[1] == 1 and e[2] == "recv" and e[3] == 0 and e[5] == 0 and e[6] == EOQ]
+    stop = [e[0] for e in log if e[1] == wr and e[2] == "recv" and e[3] == 0 and e[5] == 0 and e[6] == EOQ]
     if not stop:
         return False
     before = [e for e in log if e[0] < stop[0]]
-    from0 = [e for e in before if e[1] == 0 and e[2] in ("send", "ssend") and e[3] == 1 and e[4] == 1 and e[5] == 0]
+    from0 = [e for e in before if e[1] == 0 and e[2] in ("send", "ssend") and e[3] == wr and e[4] == 1 and e[5] == 0]
     if not from0 or from0[-1][6] != EOQ or any(e[6] == EOQ for e in from0[:-1]):
         return False
-    eager = [(e[1], e[6]) for e in before if e[2] == "send" and e[3] == 1 and e[4] == 1 and e[5] == 0]
+    eager = [(e[1], e[6]) for e in before if e[2] == "send" and e[3] == wr and e[4] == 1 and e[5] == 0]
     return all((m[0], m[4]) in eager for m in left)
 
 
 # ------------------------------------------------------------------------------------------
 def new_state():
-    return dict(terms=[], meta=[], noterm=[], rterms=[], rmeta=[], eterms=[], emeta=[], enoterm=[], qterms=[], qmeta=[])
+    return dict(terms=[], meta=[], noterm=[], rterms=[], rmeta=[], eterms=[], emeta=[], enoterm=[], qterms=[], qmeta=[],
+                lterms=[], lmeta=[], create_failed=set())
 
 
 def run(ctx):
@@ -1361,6 +1556,14 @@ def run(ctx):
     ctx.log("job-error shards done (%.1fs)" % (time.time() - t0))
     finish_qdispatch(ctx, st)
     ctx.log("consumer-stop shards done (%.1fs)" % (time.time() - t0))
+    finish_layouts(ctx, st)
+    ctx.log("layout shards done (%.1fs)" % (time.time() - t0))
+    ctx.extra["node_layouts"] = dict(
+        creation_runs_replayed=len(st["lterms"]), pipeline_worlds_on_several_nodes=sum(1 for w in pworlds if layout_label(w.get("hosts")) != "one-node"),
+        layouts=sorted({layout_label(w.get("hosts")) for w in pworlds}),
+        what="every creation run (one node and several) against c06_layout_case (Model/MpiWrite.v): writer and processing ranks = the "
+             "allowed ranks on the root's node, every chunk cut as numpy.array_split over the processing ranks, records handed out = "
+             "input = stored; the other entry points of such worlds are compared with the single-process run as on one node")
     ctx.extra["refusals"] = dict(classes={c: cc.REFUSALS[c][0] for c in sorted(cc.REFUSALS)}, runs=len(st["rterms"]),
                                  groups="A: decided by every rank; B: detected by one rank (root reads / writer opens); "
                                         "C: raised by the job on a worker rank; M: refused under MPI only")
@@ -1384,7 +1587,9 @@ def run(ctx):
                                        "checked by c06_dispatch_case; 1 <= k <= |tasks| -> every logged event enabled in qstep_with and the "
                                        "model ends stopped + quiet iff only the root returned (flag0 of c06_qdispatch_case)",
                                        "refusal runs: all ranks returned -> the logged collective calls of every communicator "
-                                       "are aligned (C06_collectives_terminate_iff_aligned, flag0 of c06_refusal_case)"]
+                                       "are aligned (C06_collectives_terminate_iff_aligned, flag0 of c06_refusal_case)",
+                                       "creation runs: nproc hosts mw = Some (number of observed processing ranks) and every chunk cut as "
+                                       "scatter does (C06_layout_no_loss; flag0 of c06_layout_case)"]
 
 
 def replay(ctx, data):
@@ -1410,7 +1615,7 @@ def replay(ctx, data):
         name = r["data_spec"]["name"]
         ref = reference(ctx, name)
         w = dict(id="replay", size=size, mw=r["max_workers"], mode=r["mode"], policy=r["policy"], seed=r["seed"] - 2, spec=name,
-                 create=False, ops=["load"], opts=r.get("follow_up_options") or {},
+                 hosts=r.get("processor_name_per_rank"), create=False, ops=["load"], opts=r.get("follow_up_options") or {},
                  refusals=[dict(cls=r["refusal_class"], par=r["parameters"], follow=r["follow_up"])])
         job = pipeline_job(ctx, w, ref)
         res = launch(ctx, "replay", job)
@@ -1422,8 +1627,11 @@ def replay(ctx, data):
         name = r["data_spec"]["name"]
         ref = reference(ctx, name)
         w = dict(id="replay", size=size, mw=r["max_workers"], mode=r["mode"], policy=r["policy"], seed=r["seed"], spec=name,
+                 hosts=r.get("processor_name_per_rank"),
                  opts=r.get("optional_keyword_arguments") or {}, ops=r.get("ops"), create=r.get("create", True))
         job = pipeline_job(ctx, w, ref)
         res = launch(ctx, "replay", job)
-        handle_pipeline(ctx, w, ref, res["out"], new_state(), job["jobs"])
+        st = new_state()
+        handle_pipeline(ctx, w, ref, res["out"], st, job["jobs"])
+        finish_layouts(ctx, st)
     reap()
